@@ -96,9 +96,18 @@ def _observe(job):
     st = np.random.get_state()
     try:
         np.random.seed(seed)
-        m = GaussianMultivariate(**config(cfg, cols))
+        kw = config(cfg, cols)
+        if cfg == 'instance' and seed % 2 == 0:
+            # a prototype that is in use elsewhere: it was fitted (to constant data below the table's values) before it was handed over
+            try:
+                kw['distribution'].fit(np.full(8, float(df.to_numpy(dtype=float).min()) - 1.0))
+            except Exception:
+                pass
+        m = GaussianMultivariate(**kw)
         if seed % 3 == 1:       # an instance with a past: fitted to, and used on, a table with another dependence
             old = pd.DataFrame({c: rs.permutation(df[c].to_numpy()) for c in cols})
+            if seed % 4 == 0:   # the earlier table had the same columns with values somewhere else entirely
+                old = old * 0.5 - 1000.0
             if seed % 2:      # the earlier table had the same columns in another order (and, now and then, one more in front)
                 old = old[cols[::-1]]
                 if seed % 4 == 1:
